@@ -14,7 +14,7 @@ RULE = ("random commit DAGs (3-25 commits, 7% extra roots, 25% merges, parents a
         "branches with names exercising numeric-aware order (release/1.2, 1.10, 9.9, 10.1, 2.0, 2-9, 2-10, 3_1, 3_10, rc-2, rc-10, master/main), "
         "heads 80% recent / 20% anywhere (so heads coincide with or lie inside other branches), build tags "
         "on 35% of commits (sometimes two tags on one commit), three kinds of messages (BUG-7, BUG-71, also "
-        "in the message body), commit times within one day, 1-3 search texts per history. Oracle: "
+        "in the message body), commit times within one day, 1-3 search texts per history (half of the histories on one long-lived collection). Oracle: "
         "reachability on the DAG computed by the harness; per branch every matching commit must be listed "
         "as the property states (minimal containing build, never 'not merged' when reachable, exactly once "
         "under 'not merged' when only reachable from a lower-sorted branch), reported builds must be builds "
@@ -111,11 +111,14 @@ def parse_printed(text):
     return res
 
 
-def judge(ctx, repo, text, case):
+def judge(ctx, repo, text, case, repos=None):
     ctx.evaluated()
     matching = {cid for cid, c in repo.commits.items() if text in c.message}
     try:
-        repos = ReposCollection({'r': mg.TRepo('r', repo, 'origin')})
+        if repos is None:
+            repos = ReposCollection({'r': mg.TRepo('r', repo, 'origin')})
+        else:
+            ctx.count("reports_on_a_reused_collection")
         (rid, rgraph), = repos.make_reports_data(text)
     except Exception as err:
         ctx.violation("report-raises", {"type": type(err).__name__, "msg": str(err)[:200]}, case)
@@ -222,8 +225,12 @@ def run_shard(ctx):
         rng = ctx.rng(i)
         repo = gen_history(rng, 25 if ctx.tier == "quick" else rng.choice([12, 25, 40]))
         descr = mg.describe(repo)
-        for text in rng.sample(TEXTS, rng.randint(1, 3)):
-            judge(ctx, repo, text, {"repo": descr, "text": text})
+        texts = rng.sample(TEXTS, rng.randint(1, 3))
+        # half of the histories are reported by ONE long-lived collection asked for several texts
+        shared = ReposCollection({'r': mg.TRepo('r', repo, 'origin')}) if rng.random() < 0.5 else None
+        for k, text in enumerate(texts):
+            judge(ctx, repo, text, {"repo": descr, "text": text, "earlier_texts_on_same_collection":
+                                    texts[:k] if shared is not None else []}, shared)
         if i < 2:
             ctx.sample({"commits": [[c[0], c[1], c[2][:20]] for c in descr["commits"]],
                         "branches": descr["branches"], "tags": descr["tags"]})
@@ -231,4 +238,12 @@ def run_shard(ctx):
 
 def replay(ctx, case):
     logging.disable(logging.CRITICAL)
-    judge(ctx, mg.rebuild(case["repo"]), case["text"], case)
+    repo = mg.rebuild(case["repo"])
+    earlier = case.get("earlier_texts_on_same_collection") or []
+    shared = None
+    if earlier:
+        shared = ReposCollection({'r': mg.TRepo('r', repo, 'origin')})
+        for t in earlier:
+            shared.make_reports_data(t)
+            shared.make_report(t)
+    judge(ctx, repo, case["text"], case, shared)
